@@ -424,6 +424,7 @@ func (prop) Generate(rng *core.Rand, tier string, emit func(string)) {
 	}
 	g := &gen{rng: rng.Fork()}
 	g.strOps(n*2, emit)
+	emit("idrace " + strconv.Itoa(100+rng.Intn(100)))
 	for i := 0; i < n; i++ {
 		line := g.history(maxSteps)
 		if len(line) > 60000 {
